@@ -17,6 +17,7 @@ pub enum Q {
     Fits(String, String),
     Reflect(Dict),
     Rel(Dict, String, Option<String>),
+    Assoc(String, String),
 }
 
 fn sorted(mut v: Vec<String>) -> Vec<String> {
@@ -40,6 +41,7 @@ pub fn answer(ns: &'static Namespace<'static>, q: &Q) -> Vec<String> {
             }
         }
         Q::Reflect(rec) => names(&ns.reflect(rec).defs),
+        Q::Assoc(parent, assoc) => names(&ns.associations(&Symbol::from(parent.as_str()), &Symbol::from(assoc.as_str()))),
         Q::Rel(rec, rel, term) => {
             let r = ns.has_relationship(rec, &Symbol::from(rel.as_str()), &term.as_ref().map(|t| Symbol::from(t.as_str())), &None, &|_| None);
             if r {
@@ -58,6 +60,7 @@ fn q_json(q: &Q) -> J {
         Q::Inh(k) => json!({"q":"inh","k":cps(k)}),
         Q::Fits(a, b) => json!({"q":"fits","k":cps(a),"b":cps(b)}),
         Q::Reflect(r) => json!({"q":"reflect","rec":tags(r)}),
+        Q::Assoc(p, a) => json!({"q":"assoc","k":cps(p),"b":cps(a)}),
         Q::Rel(r, rel, t) => json!({"q":"rel","rec":tags(r),"k":cps(rel),"b":cps(t.as_deref().unwrap_or(""))}),
     }
 }
@@ -390,7 +393,32 @@ fn small_grid() -> Grid {
     .into_iter()
     .map(|(d, is)| (d.to_string(), is.into_iter().map(|s| s.to_string()).collect()))
     .collect();
-    grid_of(&rows, false)
+    // plus the association defs: two plain ones (tagOn, rel1) and their computed reciprocals (tags, rel1s), used by a c d e
+    let mut dicts: Vec<Dict> = grid_of(&rows, false).rows.clone();
+    let syms = |names: &[&str]| Value::make_list(names.iter().map(|n| Value::make_symbol(n)).collect());
+    for d in dicts.iter_mut() {
+        match d.get_symbol("def").map(|s| s.value.clone()).as_deref() {
+            Some("a") => { d.insert("tagOn".into(), syms(&["d", "e"])); d.insert("rel1".into(), syms(&["r"])); }
+            Some("c") => { d.insert("tagOn".into(), syms(&["b"])); d.insert("rel1".into(), syms(&["d", "undefX"])); }
+            Some("e") => { d.insert("rel1".into(), syms(&["d"])); }
+            _ => {}
+        }
+    }
+    let mk = |name: &str, is: &[&str], extra: Vec<(&str, Value)>| -> Dict {
+        let mut r = Dict::new();
+        r.insert("def".into(), Value::make_symbol(name));
+        r.insert("is".into(), syms(is));
+        for (k, v) in extra {
+            r.insert(k.into(), v);
+        }
+        r
+    };
+    dicts.push(mk("association", &[], vec![]));
+    dicts.push(mk("tagOn", &["association"], vec![]));
+    dicts.push(mk("tags", &["association"], vec![("computedFromReciprocal", Value::Marker), ("reciprocalOf", Value::make_symbol("tagOn"))]));
+    dicts.push(mk("rel1", &["association"], vec![]));
+    dicts.push(mk("rel1s", &["association"], vec![("computedFromReciprocal", Value::Marker), ("reciprocalOf", Value::make_symbol("rel1"))]));
+    Grid::make_from_dicts(dicts)
 }
 
 fn random_query(rng: &mut Rng, syms: &[String]) -> Q {
@@ -455,6 +483,14 @@ pub fn rec(out: &mut Out, seed: u64, rounds: usize) -> Result<(), String> {
             p.insert("b".into(), Value::Marker);
             let pair = if r % 2 == 0 { vec![Q::Reflect(m), Q::Reflect(p)] } else { vec![Q::Reflect(p), Q::Reflect(m)] };
             queries[0].extend(pair);
+            // associations of one parent: plain and computed ones, two computed ones in either order
+            let p = ["a", "b", "c", "d", "e", "r", "u"][rng.below(7)].to_string();
+            let mut asks = vec![Q::Assoc(p.clone(), "tags".into()), Q::Assoc(p.clone(), "rel1s".into()), Q::Assoc(p.clone(), "tagOn".into()), Q::Assoc(p.clone(), "rel1".into())];
+            if r % 2 == 1 {
+                asks.swap(0, 1);
+            }
+            let t = queries.len() - 1;
+            queries[t].extend(asks);
         }
         round(out, grid, queries, if use_real { "real" } else if use_deep { "deep" } else { "small" });
     }
